@@ -386,7 +386,7 @@ def correspond(ctx):
     for z, sym in iupac():
         try:
             for x in c18_state.state_grid_cases(sym):
-                pred = 'matcher-state-grid'
+                pred = c18_state.grid_pred(x)
                 key, detail, ok = c18_state.grid_detail(x)
                 ctx.count((pred, key))
                 ctx.dist(pred)
@@ -456,9 +456,9 @@ def probe(inp):
     if inp['predicate'] in ('pack-roundtrip-isotope', 'matcher-finds-isotope'):
         bad = [(p, d) for p, d, ok in pack_matcher_predicates(inp['symbol']) if not ok and p == inp['predicate']]
         return bool(bad), f'{inp["predicate"]} on {inp["symbol"]}: failing cases {bad}' if bad else f'{inp["predicate"]} holds for {inp["symbol"]}'
-    if inp['predicate'] == 'matcher-state-grid':
-        bad = [d for p, d, ok in c18_state.state_grid_predicates(inp['symbol']) if not ok]
-        return bool(bad), f'matcher-state-grid on {inp["symbol"]}: {len(bad)} failing cases, e.g. {bad[:4]}' if bad else f'matcher-state-grid holds for {inp["symbol"]}'
+    if inp['predicate'] in ('matcher-state-grid', 'pack-state-grid'):
+        bad = [d for p, d, ok in c18_state.state_grid_predicates(inp['symbol']) if not ok and p == inp['predicate']]
+        return bool(bad), f'{inp["predicate"]} on {inp["symbol"]}: {len(bad)} failing cases, e.g. {bad[:4]}' if bad else f'{inp["predicate"]} holds for {inp["symbol"]}'
     if inp['predicate'].startswith('history-'):
         from chython.periodictable import Element
         import random
